@@ -24,7 +24,7 @@ Ltac split_k k tac := do 18 (destruct k as [|k]; [ tac | ]); tac.
 (* ------------------------------------------------------------------ what a signal can still do *)
 (* effects that touch neither the success marker nor the ghost counters *)
 Definition quiet (e : eff) : bool :=
-  match e with TouchDone | BodyBegin | BodyEnd _ => false | _ => true end.
+  match e with TouchDone | BodyBegin | BodyEnd _ | Child _ => false | _ => true end.
 
 Lemma run_quiet : forall es s, forallb quiet es = true ->
   done (run_effs es s) = done s /\ runs (run_effs es s) = runs s /\ completed (run_effs es s) = completed s.
@@ -428,5 +428,191 @@ Example kill_in_handler_cases :
     = {| d_done := false; d_failed := Some 15%Z; d_pid := true; d_lock := false; d_runs := 1; d_completed := 0 |} /\
   launch2 Guarded fresh OOk (STerm, 7, CTry) 9 = launch Guarded fresh OOk (Some (STerm, 7, CTry)) /\
   historyf Guarded fresh [(OOk, DiesTwice (STerm, 7, CTry) 3); (ORaise, Dies (SKill, 9, CTry)); (OOk, Alone)]
+    = {| d_done := true; d_failed := None; d_pid := false; d_lock := false; d_runs := 3; d_completed := 1 |}.
+Proof. vm_compute. repeat split; reflexivity. Qed.
+
+(* ================================================================== round 4: a body that forks *)
+(* without a fork the new runner is the old one *)
+Lemma runner_f_none : forall v fsafe o s, runner_f v fsafe None o s = runner v o s.
+Proof. intros. reflexivity. Qed.
+
+Lemma launch_f_none : forall v fsafe d o dth, launch_f v fsafe d None o dth = launch v d o dth.
+Proof. intros. reflexivity. Qed.
+
+(* a child that leaves through os._exit, and every child once the except clauses re-raise in a process
+   that is not the job, does nothing: all such runs have one shape *)
+Lemma silent_shape : forall v fsafe ce o s, (fsafe || wellbehaved (Some ce)) = true ->
+  runner_f v fsafe (Some ce) o s = runner_f v true (Some CQuit) o s.
+Proof.
+  intros v fsafe ce o s H. destruct fsafe; [reflexivity|].
+  destruct ce; simpl in H; try discriminate. reflexivity.
+Qed.
+
+Lemma silent_launch : forall v fsafe ce d o dth, (fsafe || wellbehaved (Some ce)) = true ->
+  launch_f v fsafe d (Some ce) o dth = launch_f v true d (Some CQuit) o dth.
+Proof.
+  intros v fsafe ce d o dth H. unfold launch_f, effects_f, trace_f.
+  rewrite (silent_shape v fsafe ce o (boot d) H). reflexivity.
+Qed.
+
+Lemma launch_f_death_fields : forall v fsafe d fk o g k c,
+  let s := run_effs (firstn k (trace_f v fsafe fk o d)) (boot d) in
+  let d' := launch_f v fsafe d fk o (@Some death (g, k, c)) in
+  d_done d' = done s /\ d_runs d' = runs s /\ d_completed d' = completed s /\ d_lock d' = false.
+Proof.
+  intros v fsafe d fk o g k c s d'. unfold d', launch_f, effects_f. rewrite run_effs_app. fold s.
+  destruct (run_quiet (on_signal v g c s) s (on_signal_quiet v g c s)) as (A & B & C).
+  unfold die; simpl. auto.
+Qed.
+
+(* the canonical silent fork: every death index (the run has one effect more: 0..18 and beyond) *)
+Ltac split_k19 k tac := do 19 (destruct k as [|k]; [ tac | ]); tac.
+
+Lemma fork_kill_anywhere_q : forall v d o dth, Inv d ->
+  Inv (launch_f v true d (Some CQuit) o dth) /\
+  (d_done (launch_f v true d (Some CQuit) o dth) = true ->
+     d_done d = true \/ (success o = true /\ d_completed (launch_f v true d (Some CQuit) o dth) = S (d_completed d))).
+Proof.
+  intros v d o dth. split_dir d. intros (H1 & H2 & H3). simpl in H1, H2, H3. subst lk. unfold Inv.
+  destruct dth as [[[g k] c]|].
+  - destruct (launch_f_death_fields v true (Build_dir dn fl pd false rn cp) (Some CQuit) o g k c) as (A & B & C & D).
+    rewrite A, B, C, D. clear A B C D g c.
+    destruct dn, fl, v; split_outcome o; split_k19 k fin.
+  - destruct dn, fl, v; split_outcome o; fin.
+Qed.
+
+Lemma fork_kill_anywhere : forall v fsafe d fk o dth, Inv d -> (fsafe || wellbehaved fk) = true ->
+  Inv (launch_f v fsafe d fk o dth) /\
+  (d_done (launch_f v fsafe d fk o dth) = true ->
+     d_done d = true \/ (success o = true /\ d_completed (launch_f v fsafe d fk o dth) = S (d_completed d))).
+Proof.
+  intros v fsafe d [ce|] o dth HI H.
+  - rewrite (silent_launch v fsafe ce d o dth H). apply fork_kill_anywhere_q, HI.
+  - rewrite launch_f_none. apply kill_anywhere, HI.
+Qed.
+
+Lemma fork_kill_anywhere_truthful : forall v fsafe d fk o dth, Inv d -> (fsafe || wellbehaved fk) = true ->
+  Truthful (launch_f v fsafe d fk o dth) /\
+  (d_done (launch_f v fsafe d fk o dth) = true ->
+     d_done d = true \/ (success o = true /\ d_completed (launch_f v fsafe d fk o dth) = S (d_completed d))).
+Proof.
+  intros v fsafe d fk o dth HI H. destruct (fork_kill_anywhere v fsafe d fk o dth HI H) as [I M].
+  split; [|exact M]. apply Inv_split in I. tauto.
+Qed.
+
+Lemma fork_histories : forall v fsafe l d, Inv d ->
+  (forall x, In x l -> (fsafe || wellbehaved (fst (fst x))) = true) ->
+  Truthful (history_f v fsafe d l).
+Proof.
+  intros v fsafe l d HI Hl. apply Inv_split. revert d HI.
+  induction l as [|[[fk o] dth] l IH]; intros d HI; simpl.
+  - exact HI.
+  - apply IH.
+    + intros x Hx. apply Hl. right. exact Hx.
+    + apply (fork_kill_anywhere v fsafe d fk o dth HI). apply (Hl (fk, o, dth)). left. reflexivity.
+Qed.
+
+(* where the body is: with a fork, the next effect is the fork (7 / 8) or the end of the body (8 / 9) *)
+Lemma in_body_f_index_q : forall v o d k,
+  d_done d = false -> in_body_f v true (Some CQuit) o d k ->
+  k = (if is_some (d_failed d) then 8 else 7) \/ k = (if is_some (d_failed d) then 9 else 8).
+Proof.
+  intros v o d k. split_dir d. intros Hd Hb. simpl in Hd. subst dn.
+  destruct Hb as [[b Hb]|[l Hb]];
+    destruct fl, v; split_outcome o;
+    split_k19 k ltac:(first [ left; reflexivity | right; reflexivity | exfalso; cbv in Hb; discriminate Hb ]).
+Qed.
+
+Lemma fork_term_in_body_q : forall v d o g c k,
+  d_done d = false -> term_signal g -> in_body_f v true (Some CQuit) o d k ->
+  let d' := launch_f v true d (Some CQuit) o (Some (g, k, c)) in
+  d_done d' = false /\ d_failed d' <> None /\ d_pid d' = false /\
+  (c = CTry -> d_failed d' = Some 1%Z).
+Proof.
+  intros v d o g c k Hd Hg Hb.
+  destruct (in_body_f_index_q v o d k Hd Hb) as [-> | ->]; clear Hb;
+    split_dir d; simpl in Hd; subst dn;
+    destruct Hg; subst g; destruct fl, v; split_outcome o; destruct c; fin.
+Qed.
+
+(* SIGTERM / SIGINT anywhere in a body that forks - before the fork or after it: the job process still has
+   its handlers (the at-fork hook ran in the child) *)
+Lemma fork_term_in_body : forall v fsafe ce d o g c k,
+  (fsafe || wellbehaved (Some ce)) = true ->
+  d_done d = false -> term_signal g -> in_body_f v fsafe (Some ce) o d k ->
+  let d' := launch_f v fsafe d (Some ce) o (Some (g, k, c)) in
+  d_done d' = false /\ d_failed d' <> None /\ d_pid d' = false /\
+  (c = CTry -> d_failed d' = Some 1%Z).
+Proof.
+  intros v fsafe ce d o g c k H Hd Hg Hb. cbv zeta.
+  rewrite (silent_launch v fsafe ce d o _ H). apply (fork_term_in_body_q v d o g c k Hd Hg).
+  unfold in_body_f, trace_f in *. rewrite <- (silent_shape v fsafe ce o (boot d) H). exact Hb.
+Qed.
+
+Example in_body_f_nontrivial :
+  in_body_f Guarded true (Some (CExit 0)) OOk fresh 7 /\ in_body_f Guarded false (Some CQuit) ORaise fresh 8.
+Proof. split; [right|left]; eexists; reflexivity. Qed.
+
+(* a job whose body forked and that ends by itself: no pid file, the lock released by its own code, the
+   body ran once, the success marker says whether it succeeded *)
+Lemma fork_own_exit_q : forall v d o, v <> Prefix ->
+  let d' := launch_f v true d (Some CQuit) o None in
+  d_pid d' = false /\
+  lock (run_effs (effects_f v true (Some CQuit) o None d) (boot d)) = false /\
+  d_runs d' = (if d_done d then d_runs d else S (d_runs d)) /\
+  d_done d' = (d_done d || success o).
+Proof.
+  intros v d o Hv. split_dir d.
+  destruct v; [congruence | |]; destruct dn, fl; split_outcome o; fin.
+Qed.
+
+Lemma fork_own_exit : forall v fsafe ce d o, v <> Prefix -> (fsafe || wellbehaved (Some ce)) = true ->
+  let d' := launch_f v fsafe d (Some ce) o None in
+  d_pid d' = false /\
+  lock (run_effs (effects_f v fsafe (Some ce) o None d) (boot d)) = false /\
+  d_runs d' = (if d_done d then d_runs d else S (d_runs d)) /\
+  d_done d' = (d_done d || success o).
+Proof.
+  intros v fsafe ce d o Hv H. cbv zeta. rewrite (silent_launch v fsafe ce d o None H).
+  unfold effects_f, trace_f. rewrite (silent_shape v fsafe ce o (boot d) H).
+  apply (fork_own_exit_q v d o Hv).
+Qed.
+
+(* LITERAL code (/repo 36bcb7f, fsafe = false) refuted.
+   1. the child leaves with sys.exit(0): the success marker appears while the parent is in its body; the
+      parent is SIGKILLed right after (9 effects done, the next would be the end of the body): marker
+      without a completed body, and the next launch skips the body. *)
+Lemma forked_child_exit0_refuted :
+  exists d o k,
+    Inv d /\ nth_error (trace_f Guarded false (Some (CExit 0)) o d) k = Some (BodyEnd true) /\
+    let d' := launch_f Guarded false d (Some (CExit 0)) o (Some (SKill, k, CTry)) in
+    d_done d' = true /\ d_completed d' = 0 /\ d_runs d' = 1 /\ ~ Truthful d' /\
+    d_runs (launch Guarded d' OOk None) = 1 /\ d_completed (launch Guarded d' OOk None) = 0.
+Proof.
+  exists fresh, OOk, 8. split; [apply Inv_fresh|]. split; [reflexivity|].
+  cbv zeta. vm_compute. repeat split; try reflexivity.
+  intros [H _]. specialize (H eq_refl). lia.
+Qed.
+
+(*  2. the child leaves with sys.exit(3) or an exception: failure marker and no pid file while the parent
+      runs on; the parent succeeds undisturbed: both markers *)
+Lemma forked_child_failure_refuted :
+  exists d ce o,
+    Inv d /\ success o = true /\
+    let d' := launch_f Guarded false d (Some ce) o None in
+    d_done d' = true /\ d_failed d' = Some 3%Z /\ d_runs d' = 1 /\ d_completed d' = 1 /\
+    d_pid (die (run_effs (firstn 9 (trace_f Guarded false (Some ce) o d)) (boot d))) = false.
+Proof.
+  exists fresh, (CExit 3), OOk. split; [apply Inv_fresh|]. vm_compute. repeat split; reflexivity.
+Qed.
+
+Example fork_cases :
+  trace_f Guarded false (Some CRaise) OOk fresh
+    = [RegAtexit; SetTerm; SetInt; Lock; NoteLock; TestDone; BodyBegin; Child [CWriteFailed 1; CRmPid; CUnlock];
+       BodyEnd true; RestoreTerm; RestoreInt; TouchDone; SetCleaned; Unlock] /\
+  trace_f Guarded true (Some CRaise) OOk fresh
+    = [RegAtexit; SetTerm; SetInt; Lock; NoteLock; TestDone; BodyBegin; Child [];
+       BodyEnd true; RestoreTerm; RestoreInt; TouchDone; SetCleaned; RmPid; Unlock] /\
+  history_f Guarded true fresh [(Some (CExit 0), OOk, Some (SKill, 8, CTry)); (Some CRaise, ORaise, None); (None, OOk, None)]
     = {| d_done := true; d_failed := None; d_pid := false; d_lock := false; d_runs := 3; d_completed := 1 |}.
 Proof. vm_compute. repeat split; reflexivity. Qed.
